@@ -156,13 +156,31 @@ def run(chk, repo):
                 and isinstance(ynode.left, ast.BinOp) and isinstance(ynode.left.op, ast.Mod) \
                 and unparse(ynode.left.right) == mname
             if not red and isinstance(ynode, ast.Name):
-                # yielded name: its last assignment in the leaf (or prologue) must be the double reduction
-                asg = [s for s in list(loop.body) + pre if isinstance(s, ast.Assign)
-                       and unparse(s.targets[0]) == ynode.id]
-                red = any(isinstance(a.value, ast.BinOp) and isinstance(a.value.op, ast.Mod)
-                          and unparse(a.value.right) == mname and isinstance(a.value.left, ast.BinOp)
-                          and isinstance(a.value.left.op, ast.Mod) and unparse(a.value.left.right) == mname
-                          for a in asg)
+                # yielded name: the value it holds AT the yield must be a double reduction by the current modulo:
+                # either its last write before the yield inside the iteration, or (none there) its value at loop
+                # entry and every write after the yield
+                def is_red(a):
+                    v_ = a.value
+                    return isinstance(a, ast.Assign) and isinstance(v_, ast.BinOp) and isinstance(v_.op, ast.Mod) \
+                        and unparse(v_.right) == mname and isinstance(v_.left, ast.BinOp) \
+                        and isinstance(v_.left.op, ast.Mod) and unparse(v_.left.right) == mname
+                ystmt = ynode
+                while not isinstance(ystmt, ast.stmt):
+                    ystmt = ystmt._parent
+                flat = list(loop.body)
+                if ystmt in flat:
+                    yi = flat.index(ystmt)
+                    w_before = [s_ for s_ in flat[:yi] if isinstance(s_, (ast.Assign, ast.AugAssign)) and
+                                unparse(s_.targets[0] if isinstance(s_, ast.Assign) else s_.target) == ynode.id]
+                    w_after = [s_ for s_ in flat[yi + 1:] if isinstance(s_, (ast.Assign, ast.AugAssign)) and
+                               unparse(s_.targets[0] if isinstance(s_, ast.Assign) else s_.target) == ynode.id]
+                    if w_before:
+                        red = is_red(w_before[-1])
+                    else:
+                        entry = [s_ for s_ in pre if isinstance(s_, ast.Assign) and unparse(s_.targets[0]) == ynode.id]
+                        red = bool(entry) and is_red(entry[-1]) and all(is_red(w) for w in w_after)
+                else:
+                    red = False
             chk.decide(red, "C19.modulo", W("modulo_counter"), "%s: output reduced as v %% %s %% %s" % (label, mname, mname),
                        why="output must lie in [0, modulo): reduce by the current modulo (twice, for negative values)",
                        node=ynode)
